@@ -138,6 +138,10 @@ def build(cfg, sels, seed=0):
         elif v == "external":
             row.update(type="select_one_external X", choice_filter="state=${st}")
             s.update(kind="query", inst="X", filter=norm_src_expr("state=${st}"))
+        elif v == "external_ls":
+            row.update(type="select_one_external X", choice_filter="state=${last-saved#st}")
+            s.update(kind="query", inst="X", filter=norm_src_expr("state=${last-saved#st}"))
+            ext("__last-saved", "jr://instance/last-saved")
         elif v == "repeat":
             row["type"] = "select_one ${rq}"
             s.update(kind="repeat", inst="rp", vref="rq", lref="rq")
@@ -183,10 +187,25 @@ def build(cfg, sels, seed=0):
         survey += [{"type": f"begin {kind}", "name": "pdsec", "label": "PDS", "relevant": "pulldata('rf', 'a', 'b', ${st}) = 'x'"},
                    {"type": "text", "name": "pdq", "label": "PDQ"}, {"type": f"end {kind}"}]
         ext("rf", "jr://file-csv/rf.csv")
+    if e in (9, 10):
+        kind = "group" if e == 9 else "repeat"
+        survey += [{"type": f"begin {kind}", "name": "lssec", "label": "LSS", "relevant": "${last-saved#st} = 'x'"},
+                   {"type": "text", "name": "lsq", "label": "LSQ"}, {"type": f"end {kind}"}]
+    if e == 11:
+        survey += [{"type": "begin repeat", "name": "lsrep", "label": "LSR", "repeat_count": "${last-saved#sd}"},
+                   {"type": "text", "name": "lsq", "label": "LSQ"}, {"type": "end repeat"}]
+    if e == 12:
+        survey.append({"type": "note", "name": "lsn", "label": "last time: ${last-saved#st}"})
+    if e == 13:
+        survey.append({"type": "text", "name": "lsh", "label": "LSH", "hint": "was ${last-saved#st}", "required": "yes", "required_message": "needed, was ${last-saved#st}"})
+    if e == 14:
+        survey.append({"type": f"select_one {LN['L']}", "name": "lsr", "label": "LSRand", "parameters": "randomize=true seed=${last-saved#sd}"})
+    if e in (9, 10, 11, 12, 13, 14):
+        ext("__last-saved", "jr://instance/last-saved")
     if e == 5:
         survey.append({"type": "calculate", "name": "pd3", "calculation": "pulldata('cf', 'a', 'b', ${st})"})
         ext("cf", "jr://file-csv/cf.csv")
-    scols = ["type", "name", "label", "choice_filter", "parameters", "appearance", "calculation", "default", "required", "constraint", "relevant"]
+    scols = ["type", "name", "label", "choice_filter", "parameters", "appearance", "calculation", "default", "required", "constraint", "relevant", "repeat_count", "hint", "required_message"]
     scols = [c for c in scols if c in ("type", "name", "label") or any(c in r for r in survey)]
     sheets = [{"name": "survey", "header": scols, "rows": [[r.get(c) for c in scols] for r in survey]},
               {"name": "choices", "header": ccols, "rows": [[r.get(c) for c in ccols] for r in order]}]
